@@ -57,6 +57,8 @@ class Batch:
                     b = {"ok": partition(b["ok"])}
                 elif proj == "sorted":
                     b = {"ok": sorted(b["ok"])}
+                elif proj == "render":
+                    b = {"ok": b["ok"]["render"]}
                 elif proj == "pipeline":
                     b = {"ok": proj_pipeline(b["ok"])}
                     parts = m.get("parts")
@@ -327,3 +329,153 @@ def stage_pipeline(batch, inputs, registry, cmps, dict_fields=(), dict_regex=(),
            "in": [[n, [conv.enc_json(s) for s in ss]] for n, ss in inputs]}
     batch.add(req, ans, {"inputs": inputs, "project": "pipeline", "parts": parts})
     return ans
+
+
+# ------------------------------------------------------------------------------------------ render
+import re as _re  # noqa: E402
+
+import json_to_models.models.base as _base  # noqa: E402
+from json_to_models.dynamic_typing import StringLiteral as _SL  # noqa: E402
+from json_to_models.models.attr import AttrsModelCodeGenerator  # noqa: E402
+from json_to_models.models.base import GenericModelCodeGenerator, generate_code  # noqa: E402
+from json_to_models.models.dataclasses import DataclassModelCodeGenerator  # noqa: E402
+from json_to_models.models.pydantic import PydanticModelCodeGenerator  # noqa: E402
+from json_to_models.models.sqlmodel import SqlModelCodeGenerator  # noqa: E402
+
+GENERATORS = {"base": GenericModelCodeGenerator, "pydantic": PydanticModelCodeGenerator,
+              "sqlmodel": SqlModelCodeGenerator, "attrs": AttrsModelCodeGenerator,
+              "dataclasses": DataclassModelCodeGenerator}
+
+
+class _ReProxy:
+    def __init__(self, rec):
+        self._rec = rec
+
+    def sub(self, pattern, repl, string, *a, **kw):
+        r = _re.sub(pattern, repl, string, *a, **kw)
+        if pattern == r"\W" and repl == "":
+            self._rec.stripW[string] = r
+        return r
+
+    def __getattr__(self, item):
+        return getattr(_re, item)
+
+
+class LabelRecorder:
+    """records every call `prepare_label` makes to unidecode / re.sub(r"\\W") / inflection.underscore"""
+
+    def __init__(self):
+        self.unidecode = {}
+        self.stripW = {}
+        self.underscore = {}
+
+    def __enter__(self):
+        self._old = (_base.unidecode, _base.re, inflection.underscore)
+        ou, _, ound = self._old
+
+        def rec_unidecode(s, *a, **kw):
+            r = ou(s, *a, **kw)
+            self.unidecode[s] = r
+            return r
+
+        def rec_underscore(s):
+            r = ound(s)
+            self.underscore[s] = r
+            return r
+
+        _base.unidecode = rec_unidecode
+        _base.re = _ReProxy(self)
+        inflection.underscore = rec_underscore
+        return self
+
+    def __exit__(self, *exc):
+        _base.unidecode, _base.re, inflection.underscore = self._old
+        return False
+
+    def tables(self):
+        firsts = {s[0] for s in self.stripW.values() if s and ord(s[0]) > 127}
+        nonprint = sorted({ord(ch) for tbl in (self.unidecode, self.stripW, self.underscore) for s in tbl for ch in s
+                           if ord(ch) > 127 and not ch.isprintable()})
+        return {"unidecode": [[k, v] for k, v in self.unidecode.items()],
+                "stripW": [[k, v] for k, v in self.stripW.items()],
+                "underscore": [[k, v] for k, v in self.underscore.items()],
+                "lowerAz": [[ord(c), 'a' <= c.lower() <= 'z'] for c in sorted(firsts)]}, nonprint
+
+
+def render_consts(registry):
+    from typing_extensions import Literal
+    ser = [[c.__name__, c.actual_type.__name__, c.actual_type.__module__]
+           for c in list(registry.types) + list(conv.SER_CLASSES.values())]
+    seen = set()
+    return {"literalModule": Literal.__module__, "blacklist": sorted(_base.blacklist_words),
+            "metadataFieldName": _base.METADATA_FIELD_NAME,
+            "serInfo": [s for s in ser if not (s[0] in seen or seen.add(s[0]))]}
+
+
+def job_kwargs(job):
+    kw = {"max_literals": job["maxLit"], "post_init_converters": job.get("postInit", False),
+          "convert_unicode": job.get("convertUnicode", True)}
+    if job["fw"] in ("attrs", "dataclasses"):
+        kw["meta"] = job.get("meta", False)
+    return kw
+
+
+def render_impl(reg, job):
+    fn = compose_models if job.get("layout", "flat") == "nested" else compose_models_flat
+    structure = fn(reg.models_map)
+    return generate_code(structure, GENERATORS[job["fw"]], class_generator_kwargs=job_kwargs(job),
+                         preamble=job.get("preamble"))
+
+
+def build_registry(inputs, registry, cmps, dict_fields=(), dict_regex=()):
+    gen = MetadataGenerator(registry, dict_keys_regex=list(dict_regex), dict_keys_fields=list(dict_fields))
+    reg = _TableRegistry(*cmps)
+    for name, samples in inputs:
+        reg.process_meta_data(gen.generate(*copy.deepcopy(samples)), name)
+    reg.merge_models(gen)
+    reg.generate_names()
+    return reg, gen
+
+
+def stage_render(batch, inputs, registry, cmps, jobs, dict_fields=(), dict_regex=()):
+    """the whole library pipeline + `generate_code` for each job; text compared byte for byte"""
+    values, keys = set(), set()
+    for _, samples in inputs:
+        for s in samples:
+            conv.walk_strings(s, values, keys)
+    cfg = conv.gen_cfg(registry, dict_fields, dict_regex)
+    orc = conv.oracles(registry, values, keys, dict_regex)
+    orc.update(name_oracles(keys))
+    outs = []
+    cost = [0]
+    with LabelRecorder() as rec:
+        reg = None
+        for job in jobs:
+            if reg is None or job.get("fresh", True):
+                try:
+                    reg, _ = build_registry(inputs, registry, cmps, dict_fields, dict_regex)
+                except Exception as e:  # noqa
+                    return {"err": err_class(e), "stage": "pipeline"}
+            try:
+                outs.append({"text": render_impl(reg, job)})
+            except Exception as e:  # noqa
+                outs.append({"err": "NoPointers" if "has no pointers" in str(e) else err_class(e)})
+    try:
+        reg0 = _TableRegistry(*cmps)
+        g0 = MetadataGenerator(registry, dict_keys_regex=list(dict_regex), dict_keys_fields=list(dict_fields))
+        for name, samples in inputs:
+            reg0.process_meta_data(g0.generate(*copy.deepcopy(samples)), name)
+        cost[0] = closure_cost(reg0)
+    except Exception:  # noqa
+        pass
+    if cost[0] > 80:
+        batch.skipped_cost += 1
+        return {"ok": outs}
+    lab, nonprint = rec.tables()
+    orc.update(lab)
+    orc["nonprint"] = sorted(set(orc["nonprint"]) | set(nonprint))
+    req = {"op": "pipeline", "cfg": cfg, "orc": orc, "cmps": [enc_cmp(c) for c in cmps],
+           "in": [[n, [conv.enc_json(s) for s in ss]] for n, ss in inputs],
+           "render": jobs, "consts": render_consts(registry)}
+    batch.add(req, {"ok": outs}, {"inputs": inputs, "jobs": jobs, "project": "render"})
+    return {"ok": outs}
